@@ -1,6 +1,6 @@
 (* C19 — per-case judgement of (input, formatted output) pairs (evaluated with vm_compute). *)
 From Coq Require Import Uint63.
-From SwayV Require Import Base.Util C16.Model C16.Judge C19.Model C19.Spec C19.Comments.
+From SwayV Require Import Base.Util C16.Model C16.Judge C19.Model C19.Spec C19.Comments C19.Auto.
 Open Scope N_scope.
 
 Fixpoint first_diff (a b : list stok) (i : N) : N :=
@@ -48,7 +48,26 @@ Definition judge_cmap (lin : impl_lex) (x : xcmap) : N :=
   | _, _ => 3
   end.
 
-Definition case := (int * list int * ximpl_lex * list int * ximpl_lex * int * xcmap)%type.
-Definition judge_all (cs : list case) : list (N * N * N) :=
-  map (fun c => match c with (st, si, li, so, lo, po, cm) =>
-         (judge (n_of st) (scalars_of si) (lex_of li) (scalars_of so) (lex_of lo) (n_of po), judge_cmap (lex_of li) cm) end) cs.
+(* ---- automaton correspondence: auto_sig = significant tokens of the real lexer's stream
+   codes: 0 equal (both abort, or same sequence) | 1 differ | 3 the real lexer panicked *)
+Definition auto_code (tab : list (N * N)) (s : list N) (il : impl_lex) : N :=
+  let a := auto_sig (ucls_of tab) s in
+  match il with
+  | ILexPanic => 3
+  | ILexErr _ => match a with None => 0 | Some _ => 1 end
+  | ILexOk ts _ _ =>
+    match a with
+    | Some x => if stok_list_eqb x (fst (sig_of (indices 0 s) ts)) then 0 else 1
+    | None => 1
+    end
+  end.
+Definition acase := (list int * list (int * int) * ximpl_lex)%type.
+Definition auto_judge_all (cs : list acase) : list N :=
+  map (fun c => match c with (si, tab, li) =>
+         auto_code (map (fun x => (n_of (fst x), n_of (snd x))) tab) (scalars_of si) (lex_of li) end) cs.
+
+Definition case := (int * list int * ximpl_lex * list int * ximpl_lex * int * xcmap * list (int * int))%type.
+Definition judge_all (cs : list case) : list (N * N * N * N) :=
+  map (fun c => match c with (st, si, li, so, lo, po, cm, tab) =>
+         (judge (n_of st) (scalars_of si) (lex_of li) (scalars_of so) (lex_of lo) (n_of po), judge_cmap (lex_of li) cm,
+          auto_code (map (fun x => (n_of (fst x), n_of (snd x))) tab) (scalars_of si) (lex_of li)) end) cs.
